@@ -265,6 +265,14 @@ class SetV(V):
         self.items = list(items)
 
 
+class SetL(V):
+    """A set given by the list of its elements (possibly with repetitions): membership = occurs in the list."""
+    __slots__ = ("lst",)
+
+    def __init__(self, lst):
+        self.lst = lst
+
+
 class Obj(V):
     """A record (pydantic model instance, adapter, AOEF object): class name + field values."""
     __slots__ = ("cls", "fields", "ident")
@@ -485,6 +493,10 @@ def eq(a: V, b: V):
         if a.kind != b.kind:
             return z3.BoolVal(False)
         return a.t == b.t
+    if isinstance(a, (SetL, SetV)) and isinstance(b, (SetL, SetV)):
+        la = a.lst if isinstance(a, SetL) else Lst(items=a.items)
+        lb = b.lst if isinstance(b, SetL) else Lst(items=b.items)
+        return z3.And(_subset(la, lb), _subset(lb, la))
     if isinstance(a, Dct) and isinstance(b, Dct):
         if len(a.pairs) != len(b.pairs):
             return z3.BoolVal(False)
@@ -498,3 +510,27 @@ def eq(a: V, b: V):
     if type(a) is not type(b):
         return z3.BoolVal(False)
     raise Unsupported(f"equality of {type(a).__name__}")
+
+
+def member(lst: Lst, x: V):
+    """x occurs in lst"""
+    if lst.concrete:
+        return z3.Or([eq(x, y) for y in lst.items]) if lst.items else z3.BoolVal(False)
+    j = fresh_int("mem")
+    return z3.Exists([j], z3.And(j >= 0, j < lst.n, eq(x, lst.at(j))))
+
+
+def _subset(la: Lst, lb: Lst):
+    if la.concrete:
+        return z3.And([member(lb, x) for x in la.items]) if la.items else z3.BoolVal(True)
+    i = fresh_int("sub")
+    return z3.ForAll([i], z3.Implies(z3.And(i >= 0, i < la.n), member(lb, la.at(i))))
+
+
+def distinct_list(lst: Lst):
+    if lst.concrete:
+        ts = [eq(a, b) for k, a in enumerate(lst.items) for b in lst.items[k + 1:]]
+        return z3.Not(z3.Or(ts)) if ts else z3.BoolVal(True)
+    i, j = fresh_int("di"), fresh_int("dj")
+    return z3.ForAll([i], z3.Implies(z3.And(i >= 0, i < lst.n),
+                                     z3.ForAll([j], z3.Implies(z3.And(j >= 0, j < i), z3.Not(eq(lst.at(i), lst.at(j)))))))
